@@ -667,6 +667,9 @@ class Reader:
             if op == '/':
                 lt, rt = e['l']['t'] if 'l' in e else {}, e['r']['t'] if 'r' in e else {}
                 if lt.get('c') == 'int' and rt.get('c') == 'int' and e['t'].get('c') == 'int':
+                    if isinstance(a, sp.Integer) and isinstance(b, sp.Integer) and b != 0:
+                        q_ = abs(int(a)) // abs(int(b))               # C++ integer division of two known integers truncates toward zero
+                        return sp.Integer(q_ if (int(a) >= 0) == (int(b) > 0) else -q_)
                     return sp.Function('idiv')(a, b)
                 return a / b
             if op == '%': return sp.Mod(a, b)
